@@ -62,6 +62,12 @@ func (ex *Exec) prim(fn *ssa.Function, args []Value) (Value, bool) {
 	case "vpReach":
 		ex.reach(ex.str(args[0]))
 		return nil, true
+	case "vpGoroutines":
+		return smt.I64(0), true
+	case "vpSleepNative":
+		return nil, true
+	case "vpQuiesce":
+		return smt.I64(int64(ex.quiesce())), true
 	case "vpBool":
 		return smt.Var(ex.str(args[0]), smt.Bool, nil, nil), true
 	case "vpInt", "vpInt64":
